@@ -457,6 +457,35 @@ def run(case, ctx):
             # back-tick pairs become balanced <code>
             if out.count("<code>") != out.count("</code>"):
                 ctx.violate("C20/html:unbalanced", "<code> tags unbalanced")
+    # history: the same definition composed from a sub-schema that has already produced trees of its own
+    firsts = sorted({repr(r["path"]["parts"][0]["v"]) for r in clean if r["path"]["parts"] and r["path"]["parts"][0]["p"] == "prim"
+                     and type(r["path"]["parts"][0]["v"]) is str})
+    if firsts and fp is None and not relaxed:
+        k0 = eval(firsts[len(clean) % len(firsts)])
+        sub_t = [dict(r, path=PC.mkpath(r["path"]["parts"][1:])) for r in clean if r["path"]["parts"] and r["path"]["parts"][0] == {"p": "prim", "v": k0}]
+        rest_t = [r for r in clean if not (r["path"]["parts"] and r["path"]["parts"][0] == {"p": "prim", "v": k0})]
+        okc, comp = call(lambda: (valida.Schema([build.rule_obj(r) for r in rest_t]), valida.Schema([build.rule_obj(r) for r in sub_t])))
+        if okc:
+            S_, T_ = comp
+            call(T_.to_tree, nested=False)
+            call(T_.to_tree, nested=True)
+            call(S_.to_tree, nested=False)
+            okc, _e = call(S_.add_schema, T_, build.path_obj(PC.mkpath([{"p": "prim", "v": k0}])))
+            okc2, flatc = call(S_.to_tree, nested=False)
+            ctx.count("history:composed-after-to_tree")
+            if not okc or not okc2:
+                ctx.violate("C20/composed-raise", f"add_schema / to_tree of the composed schema raised {(_e if not okc else flatc)!r}")
+            else:
+                sig = lambda t: sorted((repr(tuple(n["path_str"])), bool(n.get("required")), repr(n.get("doc")), n.get("parent") == -1,  # noqa: E731
+                                        repr(tuple(str(x) for x in n.get("path", ())))) for n in t)
+                if sig(flatc) != sig(flat):
+                    ctx.violate("C20/composed-differs", f"the schema composed with add_schema (sub-schema under {k0!r}, after both had produced trees) has the tree "
+                                f"{[tuple(n['path_str']) for n in flatc][:8]}, the directly built one {[tuple(n['path_str']) for n in flat][:8]}")
+                for idx, n in enumerate(flatc):
+                    par = n.get("parent")
+                    if isinstance(par, int) and 0 <= par < idx and tuple(flatc[par]["path_str"]) != tuple(n["path_str"])[:-1]:
+                        ctx.violate("C20/composed-parent", f"composed tree: parent of {tuple(n['path_str'])} is {tuple(flatc[par]['path_str'])}")
+                        break
     # history: the owner edits the schema (same number of rules) after trees were produced; the next tree shows the edit
     ins = sorted(inside.items(), key=lambda kv: repr(kv[0]))
     if ins:
